@@ -98,7 +98,8 @@ static struct MIR_alloc h_alloc = {h_c12_malloc, h_c12_calloc, h_c12_realloc, h_
 #ifndef H_FOCUS
 #define H_FOCUS 0
 #endif
-#define H_MCHK(k, c, m) do { if (H_FOCUS == 0 || H_FOCUS == (k)) H_MASSERT (c, m); else H_ASSUME (c); } while (0)
+#define H_MCHK(k, c, m) do { if (H_FOCUS == 0 || H_FOCUS == (k)) H_MASSERT (c, m); } while (0)
+#define H_MASM(k, c) do { if (H_FOCUS != 0 && H_FOCUS != (k)) H_ASSUME (c); } while (0)
 
 static int h_copies; /* back-reference copies done */
 static void *h_memcpy (void *d, const void *s, size_t n) {
@@ -107,6 +108,11 @@ static void *h_memcpy (void *d, const void *s, size_t n) {
 #endif
   H_MASSERT (H_IN_DATA (d), "memcpy destination is in struct reduce_data");
   uint64_t dk = H_BUF_IX (d), sk = H_IN_DATA (s) ? H_BUF_IX (s) : UINT64_MAX;
+#define H_C1 H_RANGE_OK (dk, n)
+#define H_C2 H_RANGE_OK (sk, n)
+#define H_C3 (!(H_C1 && H_C2) || sk + n <= dk || dk + n <= sk)
+#define H_C4 (!(H_C1 && H_C2) || sk + n <= dk)
+  H_MASM (1, H_C1); H_MASM (2, H_C2); H_MASM (3, H_C3); /* focus: the other preconditions first (4 implies 3) */
   H_MCHK (1, H_RANGE_OK (dk, n), "back-reference copy: destination range inside buf[]");
   H_MCHK (2, H_RANGE_OK (sk, n), "back-reference copy: source range inside buf[]");
   H_MCHK (3, !(H_RANGE_OK (dk, n) && H_RANGE_OK (sk, n)) || sk + n <= dk || dk + n <= sk, "back-reference copy: memcpy regions do not overlap");
